@@ -200,6 +200,9 @@ def replay(data):
     _quiet()
     if data.get('part') == 'settings':
         return True
+    if 'history' in data:
+        from . import histcheck
+        return histcheck.replay('C10', data)
     bad, outs = analyse([tuple(x) for x in data['hist']], data['lossy'])
     return any(b.split(' (')[0] == data['label'].split(' (')[0] for b in bad)
 
@@ -227,8 +230,8 @@ def check(rep):
     n = 3 if rep.tier == 'quick' else 4
     rep.bounds = dict(history_length='0..%d' % n, evaluations_in_a_row=3,
                       robot_messages=robot_texts(), user_comments=USER_TEXTS)
-    rep.outside_claim += ['fixed point over reachable repository states (needs whole handler runs)',
-                          'independence from earlier jobs beyond option defaults']
+    rep.outside_claim += ['fixed point / independence from earlier jobs: decided on the bounded histories listed '
+                          'under bounds.histories only (states reached by longer histories are outside)']
     seen = {}
     nexec = 0
     for k in range(0, n + 1):
@@ -254,3 +257,6 @@ def check(rep):
     rep.sample(dict(history=[('robot', robot_texts()[0]), ('contributor', '@robot reset')],
                     evaluations=analyse([('robot', robot_texts()[0]), ('contributor', '@robot reset')], False)[1]))
     rep.validated += 1
+    # convergence over bounded histories of complete jobs on the symbolic repository
+    from . import histcheck
+    histcheck.check(rep, 'C10')
